@@ -37,7 +37,7 @@ func init() { register(c11{}) }
 func (c11) ID() string    { return "C11" }
 func (c11) Level() string { return "exploration" }
 func (c11) Rule() string {
-	return "each trial is a fresh OS process (package state cannot be reset): N in {2,3,4,8} caller tasks each execute 1-6 drawn operations (From16Bit/To16Bit/From8Bit/To8Bit of the three curve packages; LineariseColor/EncodeColor of the four spaces; LineariseImage/EncodeImage and ConvertImageToRGBA64 on task-private images with parallelism 1-4, i.e. nested worker tasks; Bradford adaptation; the four loaders on task-private simulated sources) under a drawn schedule (SERIAL-PERM, RANDOM-WALK, PCT d<=3, SITE-BIAS with preemption points inside */lut.go and the worker closures); in first-use trials the first operation of at least two tasks needs the same lazily built table. A second simulated phase in the same process exercises subsequent calls. Oracles: (1) the race detector, which cannot see the simulator's hand-offs, reports nothing; (2) every operation's result during the run == its result re-evaluated sequentially after the final join == its solo value computed in another process; (3) no deadlock, no panic. Non-trivial: >= 2 caller tasks executed instrumented steps and (first-use trials) touched the same table; distinct = hash of the (task, site) step sequences of both phases."
+	return "each trial is a fresh OS process (package state cannot be reset): N in {2,3,4,8,16,64} caller tasks each execute 1-6 drawn operations (From16Bit/To16Bit/From8Bit/To8Bit of the three curve packages; LineariseColor/EncodeColor of the four spaces; LineariseImage/EncodeImage and ConvertImageToRGBA64 on task-private images with parallelism 1-4, i.e. nested worker tasks; Bradford adaptation; the four loaders on task-private simulated sources) under a drawn schedule (SERIAL-PERM, RANDOM-WALK, PCT d<=3, SITE-BIAS with preemption points inside */lut.go and the worker closures); in first-use trials the first operation of at least two tasks needs the same lazily built table. A second simulated phase in the same process exercises subsequent calls. Oracles: (1) the race detector, which cannot see the simulator's hand-offs, reports nothing; (2) every operation's result during the run == its result re-evaluated sequentially after the final join == its solo value computed in another process; (3) no deadlock, no panic. Non-trivial: >= 2 caller tasks executed instrumented steps and (first-use trials) touched the same table; distinct = hash of the (task, site) step sequences of both phases."
 }
 func (c11) Exhaustive(string) string { return "" }
 func (c11) Runs(tier string) int64 {
@@ -277,7 +277,7 @@ func containsICC(b []byte) bool {
 
 func drawPhase(t *tape.Tape, firstUse bool) phaseSpec {
 	var p phaseSpec
-	n := [...]int{2, 3, 4, 8}[t.Pick(4, 3, 2, 1)]
+	n := [...]int{2, 3, 4, 8, 16, 64}[t.Pick(8, 6, 4, 3, 2, 1)]
 	metaOnly := !firstUse && t.Chance(1, 4) // every task loads ICC-carrying files: hunts state shared between loads
 	p.Table = -1
 	sharers := 0
